@@ -59,7 +59,8 @@ NoDup(s) == \A i, j \in DOMAIN s : i # j => s[i] # s[j]
 StructBase(P, t) == IF IsPtr(P, t) THEN Elem(P, t) ELSE t
 \* names a wire.Struct leaf selects, in order
 SelNames(P, l) ==
-  IF l.all THEN LET fs == FieldsOfS(P, l.s)
+  IF l.k = "structlit" THEN [i \in DOMAIN FieldsOfS(P, l.s) |-> FieldsOfS(P, l.s)[i].name]
+  ELSE IF l.all THEN LET fs == FieldsOfS(P, l.s)
                     keep == SelectSeq(fs, LAMBDA f : ~f.prevented)
                 IN [i \in DOMAIN keep |-> keep[i].name]
   ELSE l.sel
@@ -75,6 +76,7 @@ LeafOK(P, l) ==
   CASE l.k = "func"   -> ResOK(ResOf(l)) /\ NoDup(l.ins)
     [] l.k = "struct" -> LET namesOK == l.all \/ \A i \in DOMAIN l.sel : NameOK(P, l.s, l.sel[i])
                          IN IsStructT(P, l.s) /\ namesOK /\ NoDup(SelTypes(P, l))
+    [] l.k = "structlit" -> IsStructT(P, l.s) /\ NoDup(SelTypes(P, l))
     [] l.k = "value"  -> ~IsIfaceT(P, l.out)
     [] l.k = "ivalue" -> Implements(P, l.conc, l.iface)
     [] l.k = "bind"   -> l.conc # l.iface /\ Implements(P, l.conc, l.iface)
@@ -85,7 +87,7 @@ LeafOK(P, l) ==
 
 LeafOuts(P, l) ==
   CASE l.k = "func"   -> {l.out}
-    [] l.k = "struct" -> {l.s, Ptr(l.s)}
+    [] l.k \in {"struct", "structlit"} -> {l.s, Ptr(l.s)}
     [] l.k = "value"  -> {l.out}
     [] l.k = "ivalue" -> {l.iface}
     [] l.k = "bind"   -> {l.iface}
@@ -154,7 +156,7 @@ DepSeq(P, items, params, t) ==
   IF u.k = "param" THEN <<>>
   ELSE LET l == P.leaves[u.i] IN
     CASE l.k = "func"   -> l.ins
-      [] l.k = "struct" -> SelTypes(P, l)
+      [] l.k \in {"struct", "structlit"} -> SelTypes(P, l)
       [] l.k = "fields" -> <<l.parent>>
       [] l.k = "bind"   -> <<l.conc>>
       [] OTHER          -> <<>>
@@ -227,7 +229,7 @@ PartialFieldItems(P, inj) ==
 IsExportedName(n) == \E c \in {"A", "B", "C", "D", "E", "F", "G", "X", "Y", "Z"} : \E rest \in {"", "1", "2"} : n = c \o rest
 ForeignUnexported(P, inj) ==
   \E u \in NeededLeafSrcs(P, inj) :
-    /\ u.k = "leaf" /\ P.leaves[u.i].k = "struct"
+    /\ u.k = "leaf" /\ P.leaves[u.i].k \in {"struct", "structlit"}
     /\ AtomOf(P, P.leaves[u.i].s).pkg # inj.pkg
     /\ \E i \in DOMAIN SelNames(P, P.leaves[u.i]) : ~IsExportedName(SelNames(P, P.leaves[u.i])[i])
 
@@ -259,7 +261,7 @@ SrcDesc(P, inj, t) ==
   IF u.k = "param" THEN [k |-> "param", i |-> u.i]
   ELSE LET l == P.leaves[u.i] IN
     CASE l.k = "func"   -> [k |-> "func", p |-> l.name]
-      [] l.k = "struct" -> [k |-> "struct", p |-> l.name, s |-> l.s, ptr |-> (t = Ptr(l.s)),
+      [] l.k \in {"struct", "structlit"} -> [k |-> "struct", p |-> l.name, s |-> l.s, ptr |-> (t = Ptr(l.s)),
                             sel |-> LET ns == SelNames(P, l) IN [i \in DOMAIN ns |-> [f |-> ns[i], t |-> FieldRec(P, l.s, ns[i]).type]],
                             rest |-> LET fs == FieldsOfS(P, l.s)
                                          un == SelectSeq(fs, LAMBDA f : \A i \in DOMAIN SelNames(P, l) : SelNames(P, l)[i] # f.name)
